@@ -119,6 +119,7 @@ pub(crate) mod verif_ring {
             ("ring_hist_array", 2) => { hist::<ArrayBuf<Tag, [Tag; 2]>, _>(s, 2, 64, p); }
             ("ring_hist_array", 3) => { hist::<ArrayBuf<Tag, [Tag; 3]>, _>(s, 3, 64, p); }
             ("ring_hist_array", 4) => { hist::<ArrayBuf<Tag, [Tag; 4]>, _>(s, 4, 64, p); }
+            ("ring_hist_array", 5) => { hist::<ArrayBuf<Tag, [Tag; 5]>, _>(s, 5, 64, p); }
             #[cfg(feature = "alloc")]
             ("ring_zst_fixed", _) => { hist_zst::<FixedHeapBuf<ZTag>, _>(s, cap, 64); }
             #[cfg(feature = "alloc")]
@@ -228,6 +229,9 @@ pub(crate) mod verif_ring {
         array_step!(array_step_c2, 2);
         array_step!(array_step_c3, 3);
         array_step!(array_step_c4, 4);
+        array_step!(array_step_c5, 5);
+        array_step!(array_step_c6, 6);
+        array_step!(array_step_c7, 7);
 
         macro_rules! hist_proof {
             (@cover 0, $b:expr) => { let _ = $b; };
@@ -246,6 +250,7 @@ pub(crate) mod verif_ring {
         hist_proof!(array_hist_c2, ArrayBuf<Tag, [Tag; 2]>, 2, 6, 8, W_WRAP);
         hist_proof!(array_hist_c3, ArrayBuf<Tag, [Tag; 3]>, 3, 8, 10, W_WRAP);
         hist_proof!(array_hist_c4, ArrayBuf<Tag, [Tag; 4]>, 4, 10, 12, W_WRAP);
+        hist_proof!(array_hist_c5, ArrayBuf<Tag, [Tag; 5]>, 5, 12, 14, W_WRAP);
         hist_proof!(fixed_hist_c0, FixedHeapBuf<Tag>, 0, 2, 6, 0);
         hist_proof!(fixed_hist_c1, FixedHeapBuf<Tag>, 1, 4, 6, W_FULL_THEN_POP);
         hist_proof!(fixed_hist_c2, FixedHeapBuf<Tag>, 2, 6, 8, W_FULL_THEN_POP);
